@@ -58,6 +58,7 @@ PROPS = {
         assumptions=COMMON_ASSUME + ["trace order is the order in which user code was entered (one mutex-protected append per call)"],
         tests=[
             dict(name="TestCtxHooks", quick=8000, thorough=1200000, shards_thorough=16),
+            dict(name="TestHooksUnderRegistryChanges", quick=3000, thorough=300000, shards_thorough=4),
         ],
     ),
     "C06": dict(
